@@ -68,7 +68,6 @@ Proof.
   apply at_pos_app in Hsg'. destruct Hsg' as [Hch _].
   unfold de_field. rewrite (parse_padding_at' b pos 8 H0). fold q. cbn [bind].
   rewrite (de_u8_at' b q _ Hc). cbn [bind]. rewrite bn_nb_small by lia.
-  replace ((1 <=? code) && (code <=? 9)) with true by lia.
   unfold de_variant.
   rewrite (de_str_narrow_at e b (q + 1) [sig_char v] Hsg) by (destruct v; reflexivity). cbn [bind].
   rewrite (at_pos_nth b (q + 1) _ _ Hlb).
@@ -115,12 +114,12 @@ Definition pempty : pfields :=
 Definition pset (pf : pfields) (f : N * wval) : R pfields :=
   match fst f, snd f with
   | 1, WPath s => Ok {| p_path := Some s; p_iface := p_iface pf; p_member := p_member pf; p_errname := p_errname pf; p_reply := p_reply pf; p_dest := p_dest pf; p_sender := p_sender pf; p_sig := p_sig pf; p_fds := p_fds pf |}
-  | 2, WStr s => Ok {| p_path := p_path pf; p_iface := Some s; p_member := p_member pf; p_errname := p_errname pf; p_reply := p_reply pf; p_dest := p_dest pf; p_sender := p_sender pf; p_sig := p_sig pf; p_fds := p_fds pf |}
-  | 3, WStr s => Ok {| p_path := p_path pf; p_iface := p_iface pf; p_member := Some s; p_errname := p_errname pf; p_reply := p_reply pf; p_dest := p_dest pf; p_sender := p_sender pf; p_sig := p_sig pf; p_fds := p_fds pf |}
-  | 4, WStr s => Ok {| p_path := p_path pf; p_iface := p_iface pf; p_member := p_member pf; p_errname := Some s; p_reply := p_reply pf; p_dest := p_dest pf; p_sender := p_sender pf; p_sig := p_sig pf; p_fds := p_fds pf |}
+  | 2, WStr s => if negb (validate_interface s) then Err EData else Ok {| p_path := p_path pf; p_iface := Some s; p_member := p_member pf; p_errname := p_errname pf; p_reply := p_reply pf; p_dest := p_dest pf; p_sender := p_sender pf; p_sig := p_sig pf; p_fds := p_fds pf |}
+  | 3, WStr s => if negb (validate_member s) then Err EData else Ok {| p_path := p_path pf; p_iface := p_iface pf; p_member := Some s; p_errname := p_errname pf; p_reply := p_reply pf; p_dest := p_dest pf; p_sender := p_sender pf; p_sig := p_sig pf; p_fds := p_fds pf |}
+  | 4, WStr s => if negb (validate_error s) then Err EData else Ok {| p_path := p_path pf; p_iface := p_iface pf; p_member := p_member pf; p_errname := Some s; p_reply := p_reply pf; p_dest := p_dest pf; p_sender := p_sender pf; p_sig := p_sig pf; p_fds := p_fds pf |}
   | 5, WU32 n => if n =? 0 then Err EData else Ok {| p_path := p_path pf; p_iface := p_iface pf; p_member := p_member pf; p_errname := p_errname pf; p_reply := Some n; p_dest := p_dest pf; p_sender := p_sender pf; p_sig := p_sig pf; p_fds := p_fds pf |}
   | 6, WStr s => if validate_bus s then Ok {| p_path := p_path pf; p_iface := p_iface pf; p_member := p_member pf; p_errname := p_errname pf; p_reply := p_reply pf; p_dest := Some s; p_sender := p_sender pf; p_sig := p_sig pf; p_fds := p_fds pf |} else Err EData
-  | 7, WStr s => Ok {| p_path := p_path pf; p_iface := p_iface pf; p_member := p_member pf; p_errname := p_errname pf; p_reply := p_reply pf; p_dest := p_dest pf; p_sender := Some s; p_sig := p_sig pf; p_fds := p_fds pf |}
+  | 7, WStr s => if negb (validate_unique s) then Err EData else Ok {| p_path := p_path pf; p_iface := p_iface pf; p_member := p_member pf; p_errname := p_errname pf; p_reply := p_reply pf; p_dest := p_dest pf; p_sender := Some s; p_sig := p_sig pf; p_fds := p_fds pf |}
   | 8, WSig s => match parse_sig s with
                  | Some g => Ok {| p_path := p_path pf; p_iface := p_iface pf; p_member := p_member pf; p_errname := p_errname pf; p_reply := p_reply pf; p_dest := p_dest pf; p_sender := p_sender pf; p_sig := g; p_fds := p_fds pf |}
                  | None => Err EData
@@ -181,7 +180,9 @@ Proof.
     cbn [de_fields_loop].
     replace (pos =? pos + padding pos 8 + len (spec_element e f)) with false by lia.
     destruct f as [code v]. rewrite (de_field_spec e b pos code v Hf Hat). cbn [bind].
-    replace (_ <? _) with false by lia. cbn [fst snd] in Hs1. rewrite Hs1. cbn [bind].
+    pose proof (proj1 Hf) as Hcode. cbn [fst] in Hcode.
+    replace (_ <? _) with false by lia. replace (code =? 0) with false by lia. replace (9 <? code) with false by lia.
+    cbn [fst snd] in Hs1. rewrite Hs1. cbn [bind].
     exists fs1. split; [|exact Hj1].
     destruct fuel; cbn [de_fields_loop]; rewrite N.eqb_refl; reflexivity.
   - rewrite spec_array_cons2 in *. unfold pad8 in *.
@@ -196,7 +197,9 @@ Proof.
     cbn [de_fields_loop]. rewrite !len_app, len_zeros.
     replace (pos =? _) with false by lia.
     destruct f as [code v]. rewrite (de_field_spec e b pos code v Hf Hat1). fold el. cbn [bind].
-    replace (_ <? _) with false by lia. cbn [fst snd] in Hs1. rewrite Hs1. cbn [bind].
+    pose proof (proj1 Hf) as Hcode. cbn [fst] in Hcode.
+    replace (_ <? _) with false by lia. replace (code =? 0) with false by lia. replace (9 <? code) with false by lia.
+    cbn [fst snd] in Hs1. rewrite Hs1. cbn [bind].
     destruct (IH fuel (pos + padding pos 8 + len el) fs1 pf') as (fs' & Hl & Hj); try assumption.
     { discriminate. } { cbn [length] in *. lia. } { rewrite Hj1. exact Hpf. }
     exists fs'. split; [|exact Hj].
@@ -237,7 +240,7 @@ Proof.
     cbn [optb optn] in *;
     repeat (cbn [app pfold pset fst snd bind p_path p_iface p_member p_errname p_reply p_dest p_sender p_sig p_fds pempty];
             try (replace (rs =? 0) with false by lia);
-            try (match goal with Hd : validate_bus d = true |- _ => rewrite Hd end));
+            repeat (match goal with Hd : ?v ?x = true |- context [?v ?x] => rewrite Hd end); cbn [negb]);
     rewrite pfold_app, pfold_sig by (reflexivity || assumption); cbn [bind]; rewrite pfold_fds; reflexivity.
 Qed.
 
@@ -353,9 +356,9 @@ Lemma at_pos_prefix x rest : at_pos (x ++ rest) 0 x.
 Proof. split; [lia|]. exists rest. reflexivity. Qed.
 
 Lemma de_primary_at e es ty fl ver bl sn rest :
-  1 <= ty <= 4 -> fl <= 7 -> ver < 256 -> bl < two32 -> 1 <= sn < two32 ->
+  1 <= ty <= 4 -> fl < 256 -> ver < 256 -> bl < two32 -> 1 <= sn < two32 ->
   de_primary e ([endian_byte es; nb ty; nb fl; nb ver] ++ u32_bytes e bl ++ u32_bytes e sn ++ rest)
-  = Ok ({| ph_endian := es; ph_type := ty; ph_flags := fl; ph_version := ver; ph_body_len := bl; ph_serial := sn |}, 12).
+  = Ok ({| ph_endian := es; ph_type := ty; ph_flags := fl mod 8; ph_version := ver; ph_body_len := bl; ph_serial := sn |}, 12).
 Proof.
   intros Hty Hfl Hver Hbl Hsn.
   set (b := _ ++ _).
@@ -374,7 +377,6 @@ Proof.
   rewrite (de_u8_at' b 1 _ H1). cbn [bind]. rewrite bn_nb_small by lia. change (1 + 1) with 2.
   replace ((1 <=? ty) && (ty <=? 4)) with true by lia. cbn [negb].
   rewrite (de_u8_at' b 2 _ H2). cbn [bind]. rewrite bn_nb_small by lia. change (2 + 1) with 3.
-  replace (fl <=? 7) with true by lia. cbn [negb].
   rewrite (de_u8_at' b 3 _ H3). cbn [bind]. rewrite bn_nb_small by lia. change (3 + 1) with 4.
   rewrite (de_u32_at' e b 4 bl Hu1) by (reflexivity || lia). cbn [bind]. change (4 + 4) with 8.
   rewrite (de_u32_at' e b 8 sn Hu2) by (reflexivity || lia). cbn [bind]. change (8 + 4) with 12.
@@ -468,10 +470,16 @@ Proof.
   (* from_raw_parts *)
   unfold from_raw_parts. rewrite Eb at 1. cbn [app]. rewrite endian_rt, endian_eqb_refl. cbn [negb].
   rewrite Eb at 1.
-  rewrite (de_primary_at e e (h_type h) (h_flags h) 1 (len body) (h_serial h) _ Hty Hfl Hv1 Hbl Hsn).
+  assert (Hfl' : h_flags h < 256) by lia.
+  rewrite (de_primary_at e e (h_type h) (h_flags h) 1 (len body) (h_serial h) _ Hty Hfl' Hv1 Hbl Hsn).
+  rewrite (N.mod_small (h_flags h) 8) by lia.
   cbn [bind N.eqb Pos.eqb negb].
   unfold data_slice. replace (len b <? 12) with false by lia. cbn [bind].
   rewrite Hu32. cbn [bind]. rewrite Hdf. cbn [bind].
+  assert (Hlb : len b = 16 + len arr + padding (16 + len arr) 8 + len body).
+  { rewrite Eb. subst tail. unfold spec_header. fold e l arr. rewrite !len_app, len_zeros, !len_u32. change (len [_; _; _; _]) with 4.
+    replace (4 + (4 + (4 + (4 + len arr)))) with (16 + len arr) by lia. lia. }
+  replace (len b <? 16 + len arr + padding (16 + len arr) 8) with false by lia.
   unfold parsed_msg, body_offset_of. fold e l b. rewrite len_pad8. unfold spec_header. fold e l arr.
   rewrite !len_app, !len_u32. change (len [_; _; _; _]) with 4.
   replace (4 + (4 + (4 + (4 + len arr)))) with (16 + len arr) by lia. reflexivity.
